@@ -473,7 +473,7 @@ theorem process_notify_exact (st : State) (i m : Nat) (msgs : List Msg)
 
 /-- A subscriber with pending events receives a prefix of the matching changes after what it
     already holds, and nothing else; other subscribers' interface, mask and closed-ness are
-    untouched (`Props.C19.notify_total`). -/
+    untouched (`Props.C19.notify_frame`). -/
 theorem process_notify_general (st : State) (j : Nat) (s : Sub) (msgs : List Msg)
     (hs : st[j]? = some s) (hb : s.buf.length ≤ 8) :
     bufAt j (notify st (process msgs)) =
